@@ -1084,3 +1084,50 @@ def case_svg_intrinsic(rng, adversarial):
     return line, out, {'fn': 'SVGImage.get_intrinsic_size', 'svg': svg_source(width, height, viewbox)}, \
         viewbox is not None, ['svg:' + ('vb' if viewbox else 'novb') + ('w' if w is not None else '') +
                               ('h' if h is not None else '')]
+
+
+# ---------------------------------------------------------------------------------------------
+# preferred.py: min-/max-content width of a replaced box
+
+def gen_pref_style(rng, adversarial):
+    def size(p_auto, percent=True):
+        k = rng.random()
+        if k < p_auto:
+            return 'auto'
+        if percent and k < p_auto + 0.15:
+            return ('%', Q(rng.choice([10, 25, 50, 100])))
+        return ('px', length(rng, adversarial) if rng.random() < 0.8 else small(rng))
+    s = {'width': size(0.6), 'height': size(0.6), 'min_width': size(0.7), 'max_width': size(0.7),
+         'min_height': size(0.7), 'max_height': size(0.7), 'margin_left': size(0.3), 'margin_right': size(0.3)}
+    for name in ('padding_left', 'padding_right'):
+        s[name] = ('px', Q(rng.choice([0, 0, 2, 5]))) if rng.random() < 0.8 else ('%', Q(rng.choice([5, 10, 60])))
+    for name in ('border_left_width', 'border_right_width'):
+        s[name] = Q(rng.choice([0, 0, 1, 3]))
+    return s
+
+
+PREF_ORDER = ('width', 'height', 'min_width', 'max_width', 'min_height', 'max_height', 'margin_left', 'margin_right',
+              'padding_left', 'padding_right', 'border_left_width', 'border_right_width')
+
+
+def call_pref_width(minimum, outer, s, intr):
+    from weasyprint.formatting_structure import boxes
+    from weasyprint.layout import preferred
+    style = {'image_resolution': Q(1), 'font_size': Q(16), 'border_collapse': 'separate'}
+    for name in PREF_ORDER:
+        value = s[name]
+        style[name] = value if not isinstance(value, tuple) else dimension(value[1], value[0])
+    box = boxes.InlineReplacedBox('img', style, None, StubImage(tuple(intr)))
+    fn = preferred.replaced_min_content_width if minimum else preferred.replaced_max_content_width
+    return docs.outcome(lambda: ok(fmt(fn(box, outer))))
+
+
+def case_pref_width(rng, adversarial):
+    s = gen_pref_style(rng, adversarial)
+    intr = intrinsic(rng, adversarial)
+    minimum, outer = rng.random() < 0.5, rng.random() < 0.5
+    out = call_pref_width(minimum, outer, s, intr)
+    wire = [s[n] if not isinstance(s[n], tuple) else [s[n][0], s[n][1]] for n in PREF_ORDER]
+    line = sx.line('prefwidth', minimum, outer, wire, list(intr))
+    return line, out, {'fn': 'replaced_min/max_content_width'}, s['width'] == 'auto', [
+        ('prefmin' if minimum else 'prefmax') + (':outer' if outer else '') + (':err' if out.startswith('err') else '')]
